@@ -35,6 +35,9 @@ Inductive tyexpr :=
 | TOr (a b : tyexpr)                      (* A | B *)
 | TFieldCls (c : pystr)                   (* Integer *)
 | TInst (f : field)                       (* a constructor call written out in full: Integer(), Integer(minimum=3) *)
+| TFunc (f : field) (stringified : bool)  (* the NAME of a parameterless function declared `-> Field` that returns f;
+                                             stringified: its return annotation is a string (`-> "Field"`, or the
+                                             module has `from __future__ import annotations`) *)
 | TStruct (c : pystr)                     (* a Structure class *)
 | TSub (c : pystr) (args : list tyexpr)   (* Array[T], Map[K, V], AnyOf[A, B] *)
 | TCtor1 (c : pystr) (item : tyexpr) (sz : sizec) (uniq : bool)                     (* Array(items=T, ...) *)
@@ -51,7 +54,17 @@ Inductive pyobj :=
 | OUnionType (args : list pyobj)                (* types.UnionType (PEP 604 on plain types) *)
 | OFieldCls (c : pystr)
 | OFieldInst (f : field)
-| OStruct (c : pystr).
+| OStruct (c : pystr)
+| OFunc (f : field) (stringified : bool).       (* a function object (is_function_returning_field) *)
+
+(* is_function_returning_field(F): WHERE the declared return type is read from is re-read from the source on every run
+   (Gen/AnnotGuards.v func_return_rule): get_type_hints resolves a string annotation, signature().return_annotation
+   does not (the string "Field" is not the class Field: the function is then just a callable) *)
+Definition func_recognised (stringified : bool) : bool :=
+  match func_return_rule with
+  | FuncRawAnnotation => negb stringified
+  | _ => true
+  end.
 
 Inductive fv := FVCls (c : pystr) | FVInst (f : field).      (* a Field class object / a Field instance *)
 Inductive items_arg := IOne (v : fv) | IMany (l : list fv).
@@ -195,7 +208,7 @@ Fixpoint tli (o : pyobj) : res (option fv) :=
   | OFieldCls c => f <- inst0 c ;; Ok (Some (FVInst f))
   | OStruct c => Ok (Some (FVInst (FClassRef c)))
   | OType n => Ok (option_map FVCls (convert_basic n))      (* not generic: the table, which holds CLASSES *)
-  | ONone | OUnionType _ => Ok None                        (* not generic, not in the table *)
+  | ONone | OUnionType _ | OFunc _ _ => Ok None            (* not generic, not in the table *)
   | OGeneric og args =>
       match convert_basic og with
       | None => Raise TypeError
@@ -221,6 +234,7 @@ Definition getitem_conv (o : pyobj) : res field :=
   | OFieldCls c => inst0 c
   | OStruct c => Ok (FClassRef c)
   | ONone => Ok FNone
+  | OFunc f s => if func_recognised s then Ok f else Raise TypeError      (* val() / "Unsupported field type" *)
   | OUnionType (OStruct _ :: _) | OUnionType (OFieldCls _ :: _) =>
       Raise Unmodelled     (* convert_field_type_if_possible returns the object itself: unbounded recursion *)
   | _ =>
@@ -354,6 +368,7 @@ Fixpoint pyeval (t : tyexpr) : res pyobj :=
   | TOr a b => oa <- pyeval a ;; ob <- pyeval b ;; py_or oa ob
   | TFieldCls c => Ok (OFieldCls c)
   | TInst f => Ok (OFieldInst f)
+  | TFunc f s => Ok (OFunc f s)
   | TStruct c => Ok (OStruct c)
   | TSub c args => objs <- evals args ;; f <- subscript c objs ;; Ok (OFieldInst f)
   | TCtor1 c item sz uniq =>
@@ -366,6 +381,18 @@ Fixpoint pyeval (t : tyexpr) : res pyobj :=
 (* ------------------------------------------------------------------ conversions of a spelling, per context *)
 (* annotation `a: s` (add_annotations_to_class_dict): None = the annotation is ignored, no field *)
 Definition convert_opt (s : tyexpr) : res (option field) := o <- pyeval s ;; tli_f o.
+
+(* ... except that a bare function name as the WHOLE annotation is a "simple field annotation" when recognised
+   (is_simple_field_annotation -> _instantiate_fields_if_needed calls it); not recognised, it goes through
+   get_typing_lib_info like any other object: not in the table, ignored *)
+Definition annot_obj (o : pyobj) : res (option field) :=
+  match o with
+  | OFunc f s => if func_recognised s then Ok (Some f) else Ok None
+  | _ => tli_f o
+  end.
+Definition convert_annot (s : tyexpr) : res (option field) := o <- pyeval s ;; annot_obj o.
+Definition is_func_obj (o : pyobj) : bool := match o with OFunc _ _ => true | _ => false end.
+Definition is_func (s : tyexpr) : bool := match pyeval s with Ok o => is_func_obj o | Raise _ => false end.
 
 Definition convert (s : tyexpr) : res field :=
   r <- convert_opt s ;; match r with Some f => Ok f | None => Raise ignored end.
@@ -383,6 +410,7 @@ Definition assign_obj (o : pyobj) : res (option field) :=
                else Raise TypeError                                     (* "assigned a non-Typedpy type" *)
   | OGeneric _ _ | OUnion _ | ONoneType => Raise TypeError
   | ONone | OUnionType _ => Ok None                                     (* just a class attribute *)
+  | OFunc f s => if func_recognised s then Ok (Some f) else Ok None     (* _instantiate_fields_if_needed / a method *)
   end.
 Definition convert_assign (s : tyexpr) : res (option field) := o <- pyeval s ;; assign_obj o.
 
@@ -494,9 +522,10 @@ Section Decl.
        PathInst        a Field instance / Structure class written as such: nothing yet.
      Then _apply_default_and_update_required_... (all three): if the field has no truthy _default so far, a list / dict /
      set default is refused ("mutable value as default"), any other is validated and stored. *)
-  Inductive decl_path := PathClass | PathTypingInst | PathInst.
+  Inductive decl_path := PathClass | PathTypingInst | PathInst | PathFunc.
   Definition decl_path_of (o : pyobj) : decl_path :=
     match o with
+    | OFunc _ _ => PathFunc            (* F(default=d): the function takes no parameters *)
     | OFieldCls _ => PathClass
     | OFieldInst _ | OStruct _ => PathInst
     | _ => match tli o with Ok (Some (FVCls _)) => PathClass | _ => PathTypingInst end
@@ -517,13 +546,14 @@ Section Decl.
         | PathInst => apply_default f kw d
         | PathClass => _ <- (if init_validates d then try_default f d else Ok tt) ;; apply_default f (Some d) d
         | PathTypingInst => _ <- try_default f d ;; apply_default f None d
+        | PathFunc => Raise TypeError
         end
     end.
 
   Definition decl_result (d : decl) : res (option fres) :=
     o <- pyeval (d_ty d) ;;
     _ <- match o with OFieldInst f => init_default f (d_kw d) | _ => Ok tt end ;;
-    r <- (if d_annot d then tli_f o else assign_obj o) ;;
+    r <- (if d_annot d then annot_obj o else assign_obj o) ;;
     match r with
     | None => Ok None
     | Some f =>
